@@ -16,8 +16,8 @@ from ginsim.props import c01, c18
 
 ID = 'C07'
 LEVEL = 'exploration'
-QUICK_RUNS = 4000
-THOROUGH_RUNS = 80000
+QUICK_RUNS = 15000
+THOROUGH_RUNS = 400000
 SHRINK_BUDGET = 250
 RULE = ('run i draws from Random("<seed>/C07/<i>") 1-4 consumer probes (all '
         'callable shapes, allow/deny lists), 1-2 producer probes and a history '
